@@ -617,12 +617,15 @@ def _race_c12(rng, tier):
             for t in range(nt):
                 pool = hi if (t + i) % 2 == 0 else lo
                 progs.append([{"op": "Set", "spec": rng.choice(pool + CS)} for _ in range(rng.choice([1, 1, 2]))])
-        if i % 3 == 1:
+        push = i % 3 == 1
+        if push:
             # push_temp_spec instead of set_new_spec in one of the racing calls (same duty: specification and gate
-            # must change together)
+            # must change together); with an additional writer, whose max_log_level() is foreign code inside the
+            # gate computation and takes a seeded random time in race scenarios
             pr = rng.choice(progs)
             pr[rng.randrange(len(pr))]["op"] = "Push"
-        out.append(_conc(progs, [], "race", init=init, writer=({"on": True, "c": rng.choice([1, 3])} if i % 3 == 0 else None)))
+        out.append(_conc(progs, [], "race", init=init,
+                         writer=({"on": True, "c": rng.choice([1, 3])} if (i % 3 == 0 or (push and i % 2 == 0)) else None)))
     return out
 
 
